@@ -6,6 +6,7 @@ import (
 	"runtime"
 	"sync"
 	"sync/atomic"
+	"time"
 
 	"github.com/whoisnian/glb/util/netutil"
 )
@@ -252,4 +253,60 @@ func runFilterConc(cfg Cfg) {
 		s.Count(fmt.Sprintf("writer-ops=%d", nOps))
 	}
 	s.Traces = runs
+	filterDuel(s, cfg)
+}
+
+// filterDuel: one writer toggles a single range and checks after every call that its own update is
+// visible, while readers hammer exactly the address that range covers. Any state that answers a
+// lookup without looking at the set (a remembered last answer, a stale snapshot) shows up here
+// within milliseconds, because reader and writer meet on the same address all the time.
+func filterDuel(s *Stream, cfg Cfg) {
+	for round := 0; round < cfg.N(4, 40); round++ {
+		f := netutil.NewIPv4Filter()
+		// put the filter in list mode (even rounds) or maps mode (odd rounds) first
+		n := 10
+		if round%2 == 1 {
+			n = netutil.VerifListSize() + 10
+		}
+		for i := 0; i < n; i++ {
+			f.Add(&net.IPNet{IP: ip4(uint32(50)<<24 | uint32(i)<<8), Mask: net.CIDRMask(24, 32)})
+		}
+		hot := uint32(99)<<24 | 0x010203
+		ones := []int{32, 24, 9}[round%3]
+		var stop atomic.Bool
+		var wg sync.WaitGroup
+		var reads atomic.Int64
+		for r := 0; r < 3; r++ {
+			wg.Add(1)
+			go func(r int) {
+				defer wg.Done()
+				ip := ip4(hot)
+				if r == 2 {
+					ip = ip16(hot)
+				}
+				for !stop.Load() {
+					f.Contains(ip)
+					reads.Add(1)
+				}
+			}(r)
+		}
+		cidr := &net.IPNet{IP: ip4(hot), Mask: net.CIDRMask(ones, 32)}
+		toggles := 0
+		for end := time.Now().Add(40 * time.Millisecond); time.Now().Before(end) && !tlEnough(s); toggles++ {
+			f.Add(cidr)
+			if !f.Contains(ip4(hot)) {
+				s.Violate("own-update-not-visible", fmt.Sprintf("duel: Contains(%v) = false right after Add(%v/%d) returned (only this goroutine changes that range)", ip4(hot), ip4(hot), ones), map[string]any{"ip": ip4(hot).String(), "ones": ones, "round": round, "toggle": toggles, "readers": "3 goroutines looking up the same address concurrently"})
+			}
+			f.Remove(cidr)
+			if f.Contains(ip4(hot)) {
+				s.Violate("own-update-not-visible", fmt.Sprintf("duel: Contains(%v) = true right after Remove(%v/%d) returned (no other range covers it)", ip4(hot), ip4(hot), ones), map[string]any{"ip": ip4(hot).String(), "ones": ones, "round": round, "toggle": toggles, "readers": "3 goroutines looking up the same address concurrently"})
+			}
+		}
+		stop.Store(true)
+		wg.Wait()
+		s.Evaluations += 2 * toggles
+		s.Dist["duel.toggles"] += toggles
+		s.Dist["duel.reader-lookups"] += int(reads.Load())
+		s.Nontrivial(fmt.Sprintf("duel/%d/%d", round%2, ones))
+	}
 }
